@@ -241,6 +241,9 @@ impl Prop for C19 {
     fn exhaustive(&self, _tier: Tier) -> bool {
         true
     }
+    fn n_enumerated_items(&self, tier: Tier) -> u64 {
+        bases(tier).len() as u64
+    }
     fn expand(&self, item: u64, tier: Tier, seed: u64) -> Vec<Scenario> {
         let bs = bases(tier);
         if (item as usize) < bs.len() {
